@@ -3,5 +3,6 @@ NOT_APPLICABLE = {}
 LEVEL_TEXT = {}
 TECHNIQUE = {
     'C01': 'static sibling cross-check: abstract interpretation of encoder/decoder pairs to struct formats, affine size forms and position/padding identities',
+    'C05': 'static termination proof: per-loop progress by lower-bound fixpoint over decoder size terms, recursion measure over the decode call graph SCCs, bounded-read and guard-dominance checks',
     'C02': 'static conformance check of the extracted codec model against specification tables; padding function interpreted in the congruence domain mod 8',
 }
